@@ -11,7 +11,7 @@ for P in "$@"; do
     ID="$P-$TAG$K"
     OUT=$("$V/tools/intake_seed.py" "$D" "$P" --id "$ID" --checks "$P" 2>&1)
     echo "$OUT" | grep -E 'NOT CONFIRMED|stored in|exit [1-9]|tests:' | sed "s/^/  /"
-    if echo "$OUT" | grep -q "caught_by=\[\]"; then
+    if [ -n "$INTAKE_ALL" ] && echo "$OUT" | grep -q "caught_by=\[\]"; then
       "$V/tools/intake_seed.py" "$D" "$P" --id "$ID" --checks all 2>&1 | grep -E 'stored in' | sed "s/^/  (all) /"
     fi
   done
